@@ -2,12 +2,15 @@
    unlock machine and SignRawTx model (perfect-cryptography instance, Keys/Exec.v) and prints, for
    every O and S line,   kind \t hist \t model-outcome \t model-shape \t model-verified \t model-obs.
    argv: "zfix=0" / "pfix=0" / "sfix=0" / "nfix=0" select the models of the code as first found.
+   Lines MW / MO (harness/cmd/c05/manager.go, the keystore manager family) are replayed on the extracted
+   manager model (Keys/Manager.v, Keys/ExecManager.v), see below; "cfix=0" selects its variant.
    Trusted driver code: parsing, formatting; no model logic. *)
 let zfix = ref true
 let pfix = ref true
 let sfix = ref true
 let nfix = ref true
-let () = Array.iter (fun a -> if a = "zfix=0" then zfix := false; if a = "pfix=0" then pfix := false; if a = "sfix=0" then sfix := false; if a = "nfix=0" then nfix := false) Sys.argv
+let cfix = ref true   (* "cfix=0": the variant of Keys/Manager.v where ClearPrivKey clears only the keystore in use *)
+let () = Array.iter (fun a -> if a = "zfix=0" then zfix := false; if a = "pfix=0" then pfix := false; if a = "sfix=0" then sfix := false; if a = "nfix=0" then nfix := false; if a = "cfix=0" then cfix := false) Sys.argv
 
 let unhexl (h : string) : z list = zlist_of_string (unhex h)
 let hexl (l : z list) = hex (string_of_zlist l)
@@ -45,6 +48,33 @@ let pend = ref (z_of_i 0)
 
 let rec repeat_z n = if n <= 0 then [] else z_of_i 0 :: repeat_z (n - 1)
 
+(* ---- the keystore manager family (lines MW / MO of harness/cmd/c05/manager.go) ----
+   MW  hist  wallets                 wallets = idx:passhex:b.i;b.i,...   a manager (re)starts: fresh keystores, nothing in use
+   MO  hist  kind  wallet  pass(hex)  arg  ...
+       kind use (UseKeystoreForWallet wallet) | sh (SignHash, arg = w.b.i:hashlen) | cl (ClearPrivKey)
+            ex | mn | ck (ExportKeystore / GetMnemonic / CheckPrivPassphrase of wallet)
+            raw (SignRawTx, arg = inputs#last; inputs ';'-separated  s+s@w.b.i  (selection changes before
+                 the input @ address of the spent output), last = s+s (selection changes before the deferred clearing))
+   answer: MO \t hist \t outcome \t obs   with obs = selection|state of keystore 1|state of keystore 2|... *)
+let mst = ref (x_mfresh [])
+let nonempty l = List.filter (fun s -> s <> "" && s <> "-") l
+let gname (s : string) : z =
+  match String.split_on_char '.' s with
+  | [w; b; i] -> x_name (z_of_string w) (z_of_string b, z_of_string i)
+  | _ -> failwith ("bad address: " ^ s)
+let ids_of (s : string) : z list = List.map z_of_string (nonempty (String.split_on_char '+' s))
+let mout_name = function
+  | MRes o -> out_name o
+  | MSigs _ -> "ok"
+  | MRefused MNoWalletInUse -> "err:no-wallet-in-use"
+  | MRefused MUtxoNotExists -> "err:utxo-not-exists"
+  | MRefused MNotMine -> "err:not-mine"
+let mobs m =
+  let (cur, l) = x_mobs m in
+  String.concat "|" ((match cur with None -> "-" | Some id -> string_of_z id) ::
+    List.map (fun (_, (((((u, mz), hz), br), n), sz)) ->
+      Printf.sprintf "%s,%s,%s,%s,%d,%s" (b2i u) (b2i mz) (b2i hz) (b2i br) (int_of_nat n) (b2i sz)) l)
+
 let () =
   iter_lines (fun line ->
     match split_tab line with
@@ -52,6 +82,36 @@ let () =
         let known = List.filter_map addr_of (String.split_on_char ',' addrs) in
         cfg := x_cfg (unhexl pass) known; st := x_init !cfg;
         warm := z_of_string w; pend := z_of_string ph
+    | "MW" :: _ :: wallets :: _ ->
+        let ws = List.map (fun w ->
+          match String.split_on_char ':' w with
+          | [idx; pass; addrs] ->
+              (z_of_string idx, x_cfg (unhexl pass) (List.filter_map addr_of (nonempty (String.split_on_char ';' addrs))))
+          | _ -> failwith ("bad wallet: " ^ w)) (nonempty (String.split_on_char ',' wallets)) in
+        mst := x_mfresh ws
+    | "MO" :: h :: kind :: wallet :: pass :: arg :: _ ->
+        let p = unhexl pass in
+        let wid = if wallet = "-" || wallet = "" then z_of_i 0 else z_of_string wallet in
+        let o = (match kind with
+          | "use" -> WOp (MUse wid)
+          | "sh" -> (match String.split_on_char ':' arg with
+                     | [a; hl] -> WOp (MSign (p, gname a, repeat_z (int_of_string hl)))
+                     | _ -> failwith ("bad sh argument: " ^ arg))
+          | "cl" -> WOp MClear
+          | "ex" -> WOp (MExport (wid, p)) | "mn" -> WOp (MMnemonic (wid, p)) | "ck" -> WOp (MCheck (wid, p))
+          | "raw" ->
+              (match String.split_on_char '#' arg with
+               | [ins; last] ->
+                   let ins = List.map (fun d ->
+                     match String.split_on_char '@' d with
+                     | [sw; a] -> (((ids_of sw, []), gname a), repeat_z 32)
+                     | _ -> failwith ("bad input: " ^ d)) (nonempty (String.split_on_char ';' ins)) in
+                   WSignRaw (p, ins, ids_of last)
+               | _ -> failwith ("bad raw argument: " ^ arg))
+          | _ -> failwith ("bad manager operation: " ^ kind)) in
+        let (r, m') = x_wstep !zfix !sfix !nfix !cfix !mst o in
+        mst := m';
+        Printf.printf "MO\t%s\t%s\t%s\n" h (mout_name r) (mobs m')
     | "O" :: h :: kind :: pass :: a :: hl :: arg :: _ ->
         let p = unhexl pass in
         let o = (match kind with
